@@ -344,6 +344,16 @@ ADDENDA9 = {
 
 ADDENDA10 = {'C01': "Scope-wide rules over the property's source files (rules/general12.py, every configuration): S1 no function reads a dynamically initialised namespace-scope object / static data member (static initialisation order; default arguments included); S2 errno is cleared before it is read; S3/S4 class layout and state-changing effects are the same with and without NDEBUG; S5 hand-written copy / move operations take over every member; S7 a plain char is never sign-extended into a wider unsigned type.", 'C02': "Scope-wide rules over the property's source files (rules/general12.py, every configuration): S1 no function reads a dynamically initialised namespace-scope object / static data member (static initialisation order; default arguments included); S2 errno is cleared before it is read; S3/S4 class layout and state-changing effects are the same with and without NDEBUG; S5 hand-written copy / move operations take over every member; S7 a plain char is never sign-extended into a wider unsigned type. S6 overload-resolution probe: as<T>(name, 1) selects the element accessor.", 'C03': "Scope-wide rules over the property's source files (rules/general12.py, every configuration): S1 no function reads a dynamically initialised namespace-scope object / static data member (static initialisation order; default arguments included); S2 errno is cleared before it is read; S3/S4 class layout and state-changing effects are the same with and without NDEBUG; S5 hand-written copy / move operations take over every member; S7 a plain char is never sign-extended into a wider unsigned type. S6 overload-resolution probe: a default that converts to std::string selects default_value(const std::string&).", 'C04': "Scope-wide rules over the property's source files (rules/general12.py, every configuration): S1 no function reads a dynamically initialised namespace-scope object / static data member (static initialisation order; default arguments included); S2 errno is cleared before it is read; S3/S4 class layout and state-changing effects are the same with and without NDEBUG; S5 hand-written copy / move operations take over every member; S7 a plain char is never sign-extended into a wider unsigned type.", 'C05': "Scope-wide rules over the property's source files (rules/general12.py, every configuration): S1 no function reads a dynamically initialised namespace-scope object / static data member (static initialisation order; default arguments included); S2 errno is cleared before it is read; S3/S4 class layout and state-changing effects are the same with and without NDEBUG; S5 hand-written copy / move operations take over every member; S7 a plain char is never sign-extended into a wider unsigned type. R05.5 includes the include-order witness (R10.6); R05.6 the fan-out walks the member sinks in place (tuple and visitor bound by reference).", 'C06': "Scope-wide rules over the property's source files (rules/general12.py, every configuration): S1 no function reads a dynamically initialised namespace-scope object / static data member (static initialisation order; default arguments included); S2 errno is cleared before it is read; S3/S4 class layout and state-changing effects are the same with and without NDEBUG; S5 hand-written copy / move operations take over every member; S7 a plain char is never sign-extended into a wider unsigned type. R06.14 (= R07.11) temporaries of the assignment operators in every instantiation; R06.15 type-level witnesses: size_type holds every std::size_t.", 'C07': "Scope-wide rules over the property's source files (rules/general12.py, every configuration): S1 no function reads a dynamically initialised namespace-scope object / static data member (static initialisation order; default arguments included); S2 errno is cleared before it is read; S3/S4 class layout and state-changing effects are the same with and without NDEBUG; S5 hand-written copy / move operations take over every member; S7 a plain char is never sign-extended into a wider unsigned type. R07.11 in every instantiation (incl. an element type constructible from anything) the assignment operators build their temporary with the copy / move / (capacity, list) constructor.", 'C08': "Scope-wide rules over the property's source files (rules/general12.py, every configuration): S1 no function reads a dynamically initialised namespace-scope object / static data member (static initialisation order; default arguments included); S2 errno is cleared before it is read; S3/S4 class layout and state-changing effects are the same with and without NDEBUG; S5 hand-written copy / move operations take over every member; S7 a plain char is never sign-extended into a wider unsigned type.", 'C09': "Scope-wide rules over the property's source files (rules/general12.py, every configuration): S1 no function reads a dynamically initialised namespace-scope object / static data member (static initialisation order; default arguments included); S2 errno is cleared before it is read; S3/S4 class layout and state-changing effects are the same with and without NDEBUG; S5 hand-written copy / move operations take over every member; S7 a plain char is never sign-extended into a wider unsigned type. R09.1 the scoped lock is not declared inside a loop (one acquisition per record).", 'C10': "Scope-wide rules over the property's source files (rules/general12.py, every configuration): S1 no function reads a dynamically initialised namespace-scope object / static data member (static initialisation order; default arguments included); S2 errno is cleared before it is read; S3/S4 class layout and state-changing effects are the same with and without NDEBUG; S5 hand-written copy / move operations take over every member; S7 a plain char is never sign-extended into a wider unsigned type. R10.6 include-order witness: the minimum (re)defined just before log.hpp is the one in force.", 'C11': "Scope-wide rules over the property's source files (rules/general12.py, every configuration): S1 no function reads a dynamically initialised namespace-scope object / static data member (static initialisation order; default arguments included); S2 errno is cleared before it is read; S3/S4 class layout and state-changing effects are the same with and without NDEBUG; S5 hand-written copy / move operations take over every member; S7 a plain char is never sign-extended into a wider unsigned type.", 'C12': "Scope-wide rules over the property's source files (rules/general12.py, every configuration): S1 no function reads a dynamically initialised namespace-scope object / static data member (static initialisation order; default arguments included); S2 errno is cleared before it is read; S3/S4 class layout and state-changing effects are the same with and without NDEBUG; S5 hand-written copy / move operations take over every member; S7 a plain char is never sign-extended into a wider unsigned type.", 'C13': "Scope-wide rules over the property's source files (rules/general12.py, every configuration): S1 no function reads a dynamically initialised namespace-scope object / static data member (static initialisation order; default arguments included); S2 errno is cleared before it is read; S3/S4 class layout and state-changing effects are the same with and without NDEBUG; S5 hand-written copy / move operations take over every member; S7 a plain char is never sign-extended into a wider unsigned type.", 'C14': "Scope-wide rules over the property's source files (rules/general12.py, every configuration): S1 no function reads a dynamically initialised namespace-scope object / static data member (static initialisation order; default arguments included); S2 errno is cleared before it is read; S3/S4 class layout and state-changing effects are the same with and without NDEBUG; S5 hand-written copy / move operations take over every member; S7 a plain char is never sign-extended into a wider unsigned type.", 'C15': "Scope-wide rules over the property's source files (rules/general12.py, every configuration): S1 no function reads a dynamically initialised namespace-scope object / static data member (static initialisation order; default arguments included); S2 errno is cleared before it is read; S3/S4 class layout and state-changing effects are the same with and without NDEBUG; S5 hand-written copy / move operations take over every member; S7 a plain char is never sign-extended into a wider unsigned type.", 'C16': "Scope-wide rules over the property's source files (rules/general12.py, every configuration): S1 no function reads a dynamically initialised namespace-scope object / static data member (static initialisation order; default arguments included); S2 errno is cleared before it is read; S3/S4 class layout and state-changing effects are the same with and without NDEBUG; S5 hand-written copy / move operations take over every member; S7 a plain char is never sign-extended into a wider unsigned type.", 'C17': "Scope-wide rules over the property's source files (rules/general12.py, every configuration): S1 no function reads a dynamically initialised namespace-scope object / static data member (static initialisation order; default arguments included); S2 errno is cleared before it is read; S3/S4 class layout and state-changing effects are the same with and without NDEBUG; S5 hand-written copy / move operations take over every member; S7 a plain char is never sign-extended into a wider unsigned type.", 'C18': "Scope-wide rules over the property's source files (rules/general12.py, every configuration): S1 no function reads a dynamically initialised namespace-scope object / static data member (static initialisation order; default arguments included); S2 errno is cleared before it is read; S3/S4 class layout and state-changing effects are the same with and without NDEBUG; S5 hand-written copy / move operations take over every member; S7 a plain char is never sign-extended into a wider unsigned type. R18.10 optional's copies create the payload from a const lvalue.", 'C19': "Scope-wide rules over the property's source files (rules/general12.py, every configuration): S1 no function reads a dynamically initialised namespace-scope object / static data member (static initialisation order; default arguments included); S2 errno is cleared before it is read; S3/S4 class layout and state-changing effects are the same with and without NDEBUG; S5 hand-written copy / move operations take over every member; S7 a plain char is never sign-extended into a wider unsigned type. R19.10 every construction of dl::exception selects a constructor that stores the diagnostic.", 'C20': "Scope-wide rules over the property's source files (rules/general12.py, every configuration): S1 no function reads a dynamically initialised namespace-scope object / static data member (static initialisation order; default arguments included); S2 errno is cleared before it is read; S3/S4 class layout and state-changing effects are the same with and without NDEBUG; S5 hand-written copy / move operations take over every member; S7 a plain char is never sign-extended into a wider unsigned type. R20.6 enumerate() / reverse() take their range by reference, never by value."}
 
+ADDENDA11 = {'C01': 'S8 the parse result owns what it reports (no pointer / reference into parser-owned containers); R01.16 (= R12.10) every entry point tokenises every element of its range.',
+    'C12': 'S8 the parse result owns what it reports.',
+    'C14': 'S8 the parse result owns what it reports: a later parse() cannot rewrite an earlier result.',
+    'C13': 'R13.11 a group constructed into X.groups_ is handed X as its parser.',
+    'C07': 'R07.11 is also asked of g++ (witness/tl_C07_gxx.cpp): clang and g++ disagree on `T tmp{ v }` for element types constructible from anything.',
+    'C05': 'R05.11 lazy-message probes: a printable function object with a non-const call operator is invoked by the selected operator<< in both statement forms.',
+    'C08': 'R08.8 a std fold in the format code starts from a value as wide as std::size_t.',
+    'C16': 'R16.8 no hash() overload casts its argument into a fixed arithmetic type.',
+    'C15': 'S6 overload-resolution probe: a default that converts to std::string selects default_value(const std::string&) (what the usage text lists).'}
+
 TECH = {
     "C02": "verbatim value-flow (carrier) analysis + must-facts on the value/next-token selection + token-syntax language inclusion (regex-literal automata, or finite-domain abstract interpretation of a hand-written character check)",
     "C04": "context-sensitive must-facts dataflow over the call graph below parse() + truth-table entailment of guard preconditions + call-graph effect rules (regex subjects, recursion, catch-handler outcomes) + finite-domain abstract interpretation of the token syntax check",
@@ -374,6 +384,8 @@ def main():
     for k, v in ADDENDA9.items():
         CLAIMS[k]["text"] = CLAIMS[k]["text"].rstrip() + " " + v
     for k, v in ADDENDA10.items():
+        CLAIMS[k]["text"] = CLAIMS[k]["text"].rstrip() + " " + v
+    for k, v in ADDENDA11.items():
         CLAIMS[k]["text"] = CLAIMS[k]["text"].rstrip() + " " + v
     for k, v in TECH.items():
         CLAIMS[k]["technique"] = v
